@@ -101,6 +101,7 @@ type Path struct {
 	ex       *Explorer
 	lastModel map[string]uint64 // last satisfying assignment of the path condition (BV/bool vars)
 	modelOK   bool
+	lits      map[*Term]bool // literals already on the path condition
 }
 
 // Violation is a counterexample candidate.
@@ -338,6 +339,13 @@ func (p *Path) addPC(t *Term) {
 	if t.IsTrue() {
 		return
 	}
+	if p.lits == nil {
+		p.lits = map[*Term]bool{}
+	}
+	p.lits[t] = true
+	if t.Op == ONot && t.S.K == KBool {
+		p.lits[t.A[0]] = false
+	}
 	p.pending = append(p.pending, t)
 	p.pcAssert = append(p.pcAssert, t)
 }
@@ -384,6 +392,9 @@ func (in *Interp) branch(c *Term) bool {
 	p := in.P
 	if p == nil {
 		in.unsupported("symbolic branch outside a path (package init?)")
+	}
+	if v, ok := p.lits[c]; ok {
+		return v // already decided on this path (syntactically the same condition)
 	}
 	b := in.tb
 	if p.ndec < len(p.prefix) {
